@@ -158,6 +158,8 @@ def oracle(case, out):
                 return ("oracle:strict-fields", "extracted %r, expected GET %r 0.9" % (got, t))
             return None
         if accepted_line:
+            if quirk and o["ver"].startswith("0.") and re.search(rb" HTTP/[0-9]+\.[0-9]+$", line.rstrip(b"\r")) and o["ver"] != "0.9":
+                return None      # delimited but unsupported version token (0.x, multi-digit => 0.0): the caller answers 505
             if quirk and o["ver"].startswith("0."):
                 return ("oracle:http0-version-token-without-delimiter:accept",
                         "strict parser accepted %r (not a request-line, not a simple request) as %r" % (line, got))
